@@ -196,6 +196,33 @@ impl<'a> Run<'a> {
         self.aborted |= c == "panic";
     }
 
+    /// prune_scan_queue_below(h, retain) (C15); `retain` < 0: nothing is retained
+    pub fn prune(&mut self, h: u32, retain: i64) {
+        let res = self.w.prune_queue(h, retain);
+        let (c, e) = res_class(&res);
+        let n = match &res { Ok(Ok(n)) => *n as i64, _ => -1 };
+        let post = self.post();
+        self.out.emit(&json!({"a": "prune", "h": self.w.rel(h), "retain": retain, "n": n, "res": c, "err": e, "post": post}));
+        self.aborted |= c == "panic";
+    }
+
+    /// queue_rescans(ranges, priority) (C15)
+    pub fn rescan(&mut self, ranges: &[(u32, u32)], prio: i64) {
+        let res = self.w.queue_rescans(ranges, prio);
+        let (c, e) = res_class(&res);
+        let post = self.post();
+        let rel: Vec<[i64; 2]> = ranges.iter().map(|(s, e)| [self.w.rel(*s), self.w.rel(*e)]).collect();
+        self.out.emit(&json!({"a": "rescan", "ranges": rel, "p": prio, "res": c, "err": e, "post": post}));
+        self.aborted |= c == "panic";
+    }
+
+    /// the wallet's scan_queue rows as absolute (start, end, priority)
+    pub fn queue_rows(&mut self) -> Vec<(u32, u32, i64)> {
+        let p = self.w.project(&self.chain);
+        let base = self.w.base as i64;
+        p["queue"].as_array().map(|q| q.iter().map(|r| ((r[0].as_i64().unwrap() + base) as u32, (r[1].as_i64().unwrap() + base) as u32, r[2].as_i64().unwrap())).collect()).unwrap_or_default()
+    }
+
     pub fn tip_top(&mut self) {
         self.tip(self.chain.top());
     }
